@@ -197,6 +197,25 @@ CHECKS = {
               'builder of the harness; Python json; new-style .mapping files and read_backmapping_file beyond the weight '
               'computation are not covered.'),
         technique='Coq proof of parser mechanisms (induction over characters / events) + extracted section table + in-Coq correspondence; whole-file differential testing (declared partial)'),
+    'C05': dict(
+        category='proof',
+        text=('Coq theorems about a model of do_links.py / molecule.py: match_order decides exactly the relation of its '
+              'documentation table (numbers fix the residue difference, 0 against > or < fixes the direction, > < runs '
+              'compare by length, * runs name equal / different residues) and is symmetric; the placements tried are '
+              'exactly the injective assignments of molecule atoms to link atoms and a placement is used iff it satisfies '
+              'every condition (attributes with Choice / NotDefinedOrNot, required AND absent bonds among matched atoms, '
+              'orders, non-edges, patterns, molecule meta), each condition characterised; applying a placement leaves '
+              'every interaction of the link present on the matched atoms (or replaced by a later one with the same atoms '
+              'and version); after adds, whatever carries an added identity is the later instance (later overrides '
+              'earlier); a removal leaves nothing that matches its template; every interaction after all links is an '
+              'original one or an instance on a placement that fitted when its link was applied. Tie: real match_order, '
+              'match_link (set of placements) and DoLinks.run_molecule (interaction multisets, node attributes, removed '
+              'nodes) on generated molecules and links, compared with the model and judged in Coq from the statement.'),
+        design_ref='DESIGN.md section 5, C05',
+        note=('Trusted: Coq kernel + vm_compute; networkx VF2 is replaced in the model by exhaustive enumeration (agreement '
+              'checked, not proved); geometry-derived parameters are recomputed numerically by the harness (not a theorem); '
+              'the order in which networkx reports placements is not modelled; the modifications attribute is not modelled.'),
+        technique='Coq proof (case analysis + lia for the order table, enumeration soundness/completeness, fold invariants for interaction tables) + in-Coq correspondence'),
 }
 NOT_APPLICABLE = {}
 PENDING_REASON = 'not yet claimed: model and proofs for this property are still being built (see DESIGN.md staging); no check is registered so nothing is asserted'
